@@ -2,7 +2,7 @@
    Statements only (copied from the lemma libraries); every proof is a bare
    `exact`; see the cited files in coq/proofs for the proofs. *)
 From Coq Require Import List NArith ZArith Bool Arith Sorting.Sorted Sorting.Permutation.
-From D2P Require Import Str Err Iter IterFacts IterProps MiscFacts PyVal Source SourceBase ViewFacts SourceIter.
+From D2P Require Import Str Err Iter IterFacts IterProps MiscFacts PyVal Source SourceBase ViewFacts SourceIter PyHeap SourceHeapViews SourceFresh SourceHtmlMap.
 Import ListNotations.
 Local Open Scope nat_scope.
 
@@ -114,3 +114,32 @@ Theorem C20_source_named_helpers :
   S_enum_paragraphs fuel (enc_rose f t) = lift_enum f (enum_paragraphs t).
 Proof. exact src_named_helpers. Qed.
 Print Assumptions C20_source_named_helpers.
+
+(* THE HTML MAP IS COMPUTED WITHOUT MODIFYING ITS ARGUMENT - about the source text (gen/SourceHeapViews.v: get_html_map and enum_at_depth translated with the heap embedding; copy.deepcopy modelled by hy_deepcopy): whenever it returns, the heap has only grown - no cell that existed before the call was modified, for ANY argument and heap - and the result is a string *)
+Theorem C20_source_html_map_keeps_argument :
+  forall fuel x h v h',
+  S_HV_get_html_map fuel x h = HOk v h' ->
+  extends h h' /\ exists s, v = VStr s.
+Proof. exact hv_get_html_map_keeps_argument. Qed.
+Print Assumptions C20_source_html_map_keeps_argument.
+
+(* so every cell of the argument reads the same afterwards *)
+Theorem C20_source_html_map_argument_unchanged :
+  forall fuel x h v h' a,
+  S_HV_get_html_map fuel x h = HOk v h' -> (a < length h)%nat -> h_get a h' = h_get a h.
+Proof. exact hv_get_html_map_argument_unchanged. Qed.
+Print Assumptions C20_source_html_map_argument_unchanged.
+
+(* enum_at_depth only reads: the heap is unchanged *)
+Theorem C20_source_enum_only_reads :
+  forall fuel x d h v h',
+  S_HV_enum_at_depth fuel x d h = HOk v h' -> h' = h.
+Proof. exact hv_enum_at_depth_pure. Qed.
+Print Assumptions C20_source_enum_only_reads.
+
+(* the modelled copy.deepcopy only allocates *)
+Theorem C20_deepcopy_only_allocates :
+  forall fuel x h v h',
+  hy_deepcopy fuel x h = HOk v h' -> extends h h'.
+Proof. exact hy_deepcopy_extends. Qed.
+Print Assumptions C20_deepcopy_only_allocates.
